@@ -36,16 +36,21 @@ def parseConcCase : Sx → Option ConcCase
     pure { svc := s, svcSx := svc, clients := cl }
   | _ => none
 
-def throughLastNewline (b : Bytes) : Bytes :=
-  (b.reverse.dropWhile (· != 10)).reverse
+/-- bytes in pieces of `n`: an arbitrary segmentation for the upgraded-phase model (its result does not depend
+    on it: C02_upgraded_records_segmentation) -/
+partial def piecesOf (n : Nat) (b : Bytes) : List Bytes :=
+  if b.isEmpty || n == 0 then [] else b.take n :: piecesOf n (b.drop n)
+
+def upProcessed (r : ConnResult) : Bytes :=
+  -- line-wise fixtures (`up.line` reads to the end, `up.segline` returns after every complete record and hands
+  -- the unfinished one back): the worker's upgraded-mode loop with the record-wise policy
+  if r.upgraded == some "up.line" || r.upgraded == some "up.segline" then
+    (ListenWorker.upgradedPhase linePolicy [] (piecesOf 7 r.handedOver)).1.flatten
+  else r.handedOver
 
 def upEcho (r : ConnResult) : Bytes :=
-  -- the fixture's upgraded handler is only invoked when there is something to read; the line-wise
-  -- fixture (interface `up.line`) echoes the complete lines and hands the unfinished one back
-  if r.upgraded.isSome && !r.handedOver.isEmpty then
-    (if r.upgraded == some "up.line" || r.upgraded == some "up.segline" then throughLastNewline r.handedOver
-     else r.handedOver)
-  else []
+  -- the fixture's upgraded handler is only invoked when there is something to read
+  if r.upgraded.isSome && !r.handedOver.isEmpty then upProcessed r else []
 
 def concClientObs (svc : Service) (cl : ConcClient) : Sx :=
   let total := cl.chunks.flatten
@@ -55,8 +60,7 @@ def concClientObs (svc : Service) (cl : ConcClient) : Sx :=
     | none, true => "err"
     | none, false => "eof"
   let ref : Sx := .list [.atom "ref", .atom refStatus, .list (.atom "out" :: r.out.map ofReply),
-    bytesAtom (if r.upgraded == some "up.line" || r.upgraded == some "up.segline" then throughLastNewline r.handedOver
-               else if r.upgraded.isSome then r.handedOver else [])]
+    bytesAtom (if r.upgraded.isSome then upProcessed r else [])]
   .list [.atom "c", .atom "t", .list (.atom "out" :: r.out.map ofReply), bytesAtom (upEcho r), .atom "f", ref]
 
 def concLine (c : ConcCase) : Sx :=
